@@ -1150,3 +1150,173 @@ func (x *DumpShardRequest_Body) StableMarshal""","""	return size
 //
 // Structures with the same field values have the same binary format.
 func (x *DumpShardRequest_Body) StableMarshal""",rule="C32.R4")
+
+# ---- C36 (guard structure of the alphabet merge)
+GL="pkg/innerring/processors/governance/list.go"
+V("C36-limit-third-of-n","C36",GL,"newNodeLimit := (ln - 1) / 3","newNodeLimit := (ln + 1) / 3",rule="C36.R1")
+V("C36-limit-checked-after-increment","C36",GL,"""			if limitReached {
+				continue
+			}
+			newNodes++""","""			newNodes++
+			if limitReached {
+				continue
+			}""",rule="C36.R1")
+V("C36-new-key-not-counted","C36",GL,"""			if limitReached {
+				continue
+			}
+			newNodes++
+		} else {""","""			if !limitReached {
+				newNodes++
+			}
+		} else {""",rule="C36.R1")
+V("C36-no-size-test","C36",GL,"""	for _, node := range fsChain {
+		if len(result) == ln {
+			break
+		}
+
+		if !hmap""","""	for _, node := range fsChain {
+		if !hmap""",rule="C36.R2")
+V("C36-member-not-marked","C36",GL,"""		} else {
+			hmap[mainnetAddr] = true
+		}
+""","""		}
+""",rule="C36.R2")
+V("C36-unchanged-list-proposed","C36",GL,"""	if newNodes == 0 {
+		return nil, nil
+	}
+""","",rule="C36.R3")
+V("C36-ir-no-continue","C36",GL,"""loop:
+	for i := range innerRing {
+		for j := range before {
+			if innerRing[i].Equal(before[j]) {
+				result = append(result, after[j])
+				continue loop
+			}
+		}""","""	for i := range innerRing {
+		for j := range before {
+			if innerRing[i].Equal(before[j]) {
+				result = append(result, after[j])
+				break
+			}
+		}""",rule="C36.R4")
+V("C36-ir-wrong-index","C36",GL,"result = append(result, after[j])","result = append(result, after[i%len(after)])",rule="C36.R4")
+V("C36-nil-list-voted","C36","pkg/innerring/processors/governance/process_update.go","""	if newAlphabet == nil {
+		gp.log.Info("no governance update, alphabet list has not been changed")
+		return
+	}
+""","""	if newAlphabet == nil {
+		gp.log.Info("no governance update, alphabet list has not been changed")
+	}
+""",rule="C36.R5")
+V("C36-silent-limit-form","C36",GL,"""		limitReached := newNodes == newNodeLimit
+""","""		limitReached := newNodes >= newNodeLimit
+""",expect="silent")
+V("C36-silent-limit-expr","C36",GL,"newNodeLimit := (ln - 1) / 3","newNodeLimit := (len(fsChain) + 2) / 3 - 1",expect="silent")
+V("C44-parents-take-batch-slots","C44","pkg/local_object_storage/metabase/graveyard.go","""		if !isNonPhysicalEntry(lookup, obj) {
+			removable++
+		}
+""","""		removable++
+		_ = lookup
+""",rule="C44.R6")
+V("C44-silent-only-removable-listed","C44","pkg/local_object_storage/metabase/graveyard.go","""		if removable >= limit {
+			break
+		}
+		// Delete refuses non-physical entries (they are removed along
+		// with their last part), so they must not take the place of
+		// removable objects in the batch: otherwise enough of them at
+		// the beginning of the list stop garbage collection forever.
+		if !isNonPhysicalEntry(lookup, obj) {
+			removable++
+		}
+		objs = append(objs, obj)""","""		if len(objs) >= limit {
+			break
+		}
+		if isNonPhysicalEntry(lookup, obj) {
+			continue
+		}
+		removable++
+		objs = append(objs, obj)""",expect="silent")
+
+# ---- rules added after the second seeding round
+V("C43-mode-recorded-before-open","C43","pkg/local_object_storage/metabase/control.go","""	if err = db.openBolt(); err != nil {
+		return err
+	}
+
+	if readOnly {
+		db.mode = mode.ReadOnly
+	}
+
+	return nil
+}""","""	if readOnly {
+		db.mode = mode.ReadOnly
+	}
+
+	return db.openBolt()
+}""",rule="C43.R6")
+V("C43-wc-mode-before-open","C43","pkg/local_object_storage/writecache/mode.go","""	if err := c.openStore(m.ReadOnly()); err != nil {
+		return err
+	}
+
+	c.mode = m
+	return nil""","""	c.mode = m
+	return c.openStore(m.ReadOnly())""",rule="C43.R6")
+V("C01-silent-markvalue-hoisted","C01","pkg/local_object_storage/metabase/inhume.go","""		metaBucket = metaCursor.Bucket()
+	)
+	addr.SetContainer(cnr)
+""","""		metaBucket = metaCursor.Bucket()
+		markValue  []byte
+	)
+	addr.SetContainer(cnr)
+	if mark != GarbageMarkDefault {
+		markValue = []byte{byte(mark)}
+	}
+""",expect="silent",more=[{"file":"pkg/local_object_storage/metabase/inhume.go","old":"""		var markValue []byte
+		if mark != GarbageMarkDefault {
+			markValue = []byte{byte(mark)}
+		}
+""","new":""}])
+V("C02-lock-kept-in-counter","C02","pkg/local_object_storage/metabase/metadata.go","""	case object.TypeLock:
+		diff.Lock--
+""","""	case object.TypeLock:
+""",rule="C02.R")
+V("C02-payload-kept-for-stored-parent","C02","pkg/local_object_storage/metabase/metadata.go","""	if !nonPhy && !garbage {
+		diff.Payload -= int64(size)
+	}""","""	if !nonPhy && !garbage && !isParent {
+		diff.Payload -= int64(size)
+	}""",rule="C02.R8")
+V("C09-silent-wc-delete-helper","C09","pkg/local_object_storage/shard/delete.go","""		for _, id := range res[len(addrs):] { // the rest are addrs, removed above
+			err := s.writeCache.Delete(oid.NewAddress(cnr, id))
+			if err != nil && !errors.Is(err, apistatus.ErrObjectNotFound) && !errors.Is(err, writecache.ErrReadOnly) {
+				s.log.Warn("can't delete object from write cache", zap.Error(err))
+			}
+		}""","""		for _, id := range res[len(addrs):] { // the rest are addrs, removed above
+			s.dropFromWriteCache(oid.NewAddress(cnr, id))
+		}""",expect="silent",more=[{"file":"pkg/local_object_storage/shard/delete.go","old":"""func (s *Shard) deleteObjs(cnr cid.ID, addrs []oid.ID) error {""","new":"""func (s *Shard) dropFromWriteCache(addr oid.Address) {
+	err := s.writeCache.Delete(addr)
+	if err != nil && !errors.Is(err, apistatus.ErrObjectNotFound) && !errors.Is(err, writecache.ErrReadOnly) {
+		s.log.Warn("can't delete object from write cache", zap.Error(err))
+	}
+}
+
+func (s *Shard) deleteObjs(cnr cid.ID, addrs []oid.ID) error {"""}])
+V("C28-silent-container-question-helper","C28","pkg/services/object/acl/v2/classifier.go","""	isContainerNode, err := c.fsChain.InContainerInLastTwoEpochs(idCnr, reqAuthorPub)
+""","""	isContainerNode, err := c.isContainerKey(idCnr, reqAuthorPub)
+""",expect="silent",more=[{"file":"pkg/services/object/acl/v2/classifier.go","old":"""func (c senderClassifier) isInnerRingKey(owner []byte) (bool, error) {""","new":"""func (c senderClassifier) isContainerKey(cnr cid.ID, key []byte) (bool, error) {
+	ok, err := c.fsChain.InContainerInLastTwoEpochs(cnr, key)
+	if err != nil {
+		return false, err
+	}
+	return ok, nil
+}
+
+func (c senderClassifier) isInnerRingKey(owner []byte) (bool, error) {"""}])
+V("C28-inner-ring-role-for-any-key","C28","pkg/services/object/acl/v2/classifier.go","""		if bytes.Equal(innerRingKeys[i], owner) {
+			return true, nil
+		}""","""		if len(innerRingKeys[i]) == len(owner) && !bytes.Equal(nil, owner) {
+			return true, nil
+		}""",rule="C28.R4")
+V("C24-write-error-overwritten","C24","pkg/services/object/put/validation.go","""	if quotaErr := t.checkQuotaLimits(t.cachedHeader, t.writtenPayload); quotaErr != nil {
+		err = quotaErr
+	}
+""","""	err = t.checkQuotaLimits(t.cachedHeader, t.writtenPayload)
+""",rule="C24.R7")
